@@ -533,6 +533,19 @@ class Interp:
         d, l, path = r
         if getattr(self, "store_log", None) is not None and pl[1]:
             self.log_index(self.store_log, st, depth, pl, path)
+            if (d, l) != (depth, pl[0]) and isinstance(l, int):
+                # a store through a reference (`digits[0] = ..` on a chunk, `*digit = ..` on an iter_mut item): the element written belongs to the
+                # array the reference points into
+                stack = getattr(self, "fn_stack", None) or []
+                off = len(st.frames) - len(stack)
+                fd = stack[d - off] if 0 <= d - off < len(stack) else None
+                if fd is not None:
+                    for stp in path:
+                        if stp[0] == "i":
+                            k = stp[1]
+                            lo, hi = (k, k) if isinstance(k, int) else k
+                            self.store_log.setdefault((fd["key"], l), []).append((lo, hi))
+                            break
         cur = st.frames[d].get(l)
         if path and (cur is None or cur[0] == "top"):
             fv = None
@@ -1814,7 +1827,7 @@ class Interp:
                 return None
 
     # ------------------------------------------------------------------ refinement
-    def cond_def(self, fv, local):
+    def cond_def(self, fv, local, depth_=0):
         """the comparison defining a bool local: (op, operandA, operandB) or None"""
         ds = fv.defs.get(local, [])
         if len(ds) == 1 and ds[0].kind == "assign" and not ds[0].proj and ds[0].rv[0] == "bin" and ds[0].rv[1] in ("Eq", "Ne", "Lt", "Le", "Gt", "Ge"):
@@ -1826,6 +1839,16 @@ class Interp:
                 if c:
                     neg = {"Eq": "Ne", "Ne": "Eq", "Lt": "Ge", "Ge": "Lt", "Le": "Gt", "Gt": "Le"}
                     return neg[c[0]], c[1], c[2]
+        if len(ds) == 1 and ds[0].kind == "assign" and not ds[0].proj and ds[0].rv[0] == "use" and ds[0].rv[1][0] in ("c", "m") and not ds[0].rv[1][1][1] and depth_ < 4:
+            # a copy of a named bool (`let small = x < k; ... if small {..}`): the comparison still describes its operands at the test only if they
+            # cannot have changed in between - required: every local operand of the comparison has a single definition
+            c = self.cond_def(fv, ds[0].rv[1][1][0], depth_ + 1)
+            if c:
+                for o in (c[1], c[2]):
+                    if o[0] in ("c", "m"):
+                        if o[1][1] or len([d for d in fv.defs.get(o[1][0], [])]) != 1:
+                            return None
+                return c
         return None
 
     def refine_cmp(self, st, depth, fv, op, oa, ob, truth):
